@@ -377,7 +377,7 @@ def run(tier):
                    'line-shifting constructs followed by each kind of error, and errors inside (nested) included files: reported file/line/included-in compared with the position the generator knows',
                    obligations=st['obligations'], discharged=st['discharged'], evaluations=st['paths'] + st['sources'], distinct_nontrivial=st['obligations'], functions_encoded=st['functions'], paths=st['paths'], queries=st['queries'],
                    solver_s=round(st['solver_s'], 1), replays=st['replays'], end_to_end_sources=st['sources'], located_correctly=st['located'], samples=st['samples'],
-                   bounds=dict(text_length='<= %d characters' % (5 if tier == 'quick' else 6), alphabet="{'x', '\\n'}", loop_unrolling='text length + 1', end_to_end='1-2 (thorough: 3) preceding constructs x 7 error kinds; 4 header error shapes'),
+                   bounds=dict(text_length='<= %d characters' % (5 if tier == 'quick' else 6), alphabet="{'x', '\\n', e-acute (2 bytes)}; offsets are byte offsets at character boundaries", loop_unrolling='text length + 1', end_to_end='1-2 (thorough: 3) preceding constructs x 7 error kinds; 4 header error shapes'),
                    scope='the offset->line translation and the line accounting of the preprocessor; that every generator error passes the right position is exercised only for the listed error kinds',
                    trusted_base=['mirsym + Chars/Vec models', 'z3', 'driver'])
     rep.assumptions = ['the line table has one entry per output line', 'ASCII text', 'a spliced logical line is reported on its last physical line or any of its lines (property allows any)']
